@@ -143,61 +143,89 @@ theorem findDate_self (d : Str) (h : isDateText d = true) : findDate d = d := by
     simp [findDate, matchDate, a1, a2, b1, b2, b3, b4, hm.1, hm.2.1, hm.2.2]
   · exact absurd h (by simp)
 
-/-! ### literal searches on the LOCUS line -/
+/-! ### the text that is searched: `" " + Join(filtered[2:], " ") + " "` -/
 
 theorem spaces_succ_append (k : Nat) (x : Str) : spaces (k + 1) ++ x = ' ' :: (spaces k ++ x) := by
   simp [spaces, List.replicate_succ]
 
+theorem spaces_succ_append' (k : Nat) (x : Str) : spaces (k + 1) ++ x = spaces k ++ ' ' :: x := by
+  induction k with
+  | zero => rfl
+  | succ j ih => rw [spaces_succ_append, ih, spaces_succ_append]
+
+/-- blank, then the six tokens after the name, each followed by one blank -/
+def S6 (len mol topo div date : Str) : Str :=
+  spaces (0 + 1) ++ (len ++ (spaces (0 + 1) ++ (c!"bp" ++ (spaces (0 + 1) ++ (mol ++ (spaces (0 + 1) ++ (topo
+    ++ (spaces (0 + 1) ++ (div ++ (spaces (0 + 1) ++ (date ++ (spaces (0 + 1) ++ []))))))))))))
+
+theorem S6_eq (len mol topo div date : Str) :
+    c!" " ++ join c!" " [len, c!"bp", mol, topo, div, date] ++ c!" " = S6 len mol topo div date := by
+  simp [S6, join, spaces, List.append_assoc]
+
+/-- all eight blank-separated fields of the LOCUS line -/
+theorem fields_L (p0 p1 p2 p3 p4 p5 : Nat) (name len mol topo div date : Str)
+    (h1 : ' ' ∉ name) (h2 : ' ' ∉ len) (h3 : ' ' ∉ mol) (h4 : ' ' ∉ topo) (h5 : ' ' ∉ div) (h6 : ' ' ∉ date)
+    (n1 : name ≠ []) (n2 : len ≠ []) (n3 : mol ≠ []) (n4 : topo ≠ []) (n5 : div ≠ []) (n6 : date ≠ []) :
+    (splitC ' ' (L p0 p1 p2 p3 p4 p5 name len mol topo div date)).filter (· ≠ [])
+      = [c!"LOCUS", name, len, c!"bp", mol, topo, div, date] := by
+  have hL : ' ' ∉ c!"LOCUS" := by decide
+  have hbp : ' ' ∉ c!"bp" := by decide
+  simp only [L]
+  rw [splitC_gap _ _ _ hL, splitC_gap _ _ _ h1, splitC_gap _ _ _ h2, splitC_gap _ _ _ hbp, splitC_gap _ _ _ h3,
+    splitC_gap _ _ _ h4, splitC_gap _ _ _ h5, splitC_of_not_mem ' ' date h6]
+  simp only [List.filter_cons_of_pos, filter_ne_nil_replicate, ne_eq, n1, n2, n3, n4, n5, n6, not_false_eq_true,
+    decide_true, List.filter_nil, List.cons_ne_nil]
+
 section
-variable (p0 p1 p2 p3 p4 p5 : Nat) (name len mol topo div date : Str)
+variable (len mol topo div date : Str)
 
 /-- a blank-free pattern lies inside one token -/
-theorem contains_L (lit : Str) (h : ' ' ∉ lit) (hne : lit ≠ []) :
-    contains (L p0 p1 p2 p3 p4 p5 name len mol topo div date) lit =
-      (contains c!"LOCUS" lit || (contains name lit || (contains len lit || (contains c!"bp" lit || (contains mol lit
-        || (contains topo lit || (contains div lit || contains date lit))))))) := by
-  simp only [L, contains_gap _ _ _ _ h hne]
+theorem contains_S6 (lit : Str) (h : ' ' ∉ lit) (hne : lit ≠ []) :
+    contains (S6 len mol topo div date) lit =
+      (contains len lit || (contains c!"bp" lit || (contains mol lit
+        || (contains topo lit || (contains div lit || contains date lit))))) := by
+  have e : S6 len mol topo div date = [] ++ S6 len mol topo div date := rfl
+  rw [e]
+  simp only [S6, contains_gap _ _ _ _ h hne, contains_nil_lit lit hne, Bool.false_or, Bool.or_false]
 
-variable (hname : ' ' ∉ name) (hlen : ' ' ∉ len) (hmol : ' ' ∉ mol) (htopo : ' ' ∉ topo) (hdiv : ' ' ∉ div)
-  (hdate : ' ' ∉ date)
-include hname hlen hmol htopo hdiv hdate
+variable (hlen : ' ' ∉ len) (hmol : ' ' ∉ mol) (htopo : ' ' ∉ topo) (hdiv : ' ' ∉ div) (hdate : ' ' ∉ date)
+include hlen hmol htopo hdiv hdate
 
-/-- blank + blank-free pattern `v`: `v` starts a token other than the first -/
-theorem contains_L_sp (c : Char) (w : Str) (hc : c ≠ ' ') (hw : ' ' ∉ w) :
-    contains (L p0 p1 p2 p3 p4 p5 name len mol topo div date) (' ' :: c :: w) =
-      ((c :: w).isPrefixOf name || ((c :: w).isPrefixOf len || ((c :: w).isPrefixOf c!"bp" || ((c :: w).isPrefixOf mol
-        || ((c :: w).isPrefixOf topo || ((c :: w).isPrefixOf div || (c :: w).isPrefixOf date)))))) := by
+/-- blank + blank-free pattern `v`: `v` starts a token -/
+theorem contains_S6_sp (c : Char) (w : Str) (hc : c ≠ ' ') (hw : ' ' ∉ w) :
+    contains (S6 len mol topo div date) (' ' :: c :: w) =
+      ((c :: w).isPrefixOf len || ((c :: w).isPrefixOf c!"bp" || ((c :: w).isPrefixOf mol
+        || ((c :: w).isPrefixOf topo || ((c :: w).isPrefixOf div || (c :: w).isPrefixOf date))))) := by
   have hv : ' ' ∉ c :: w := by simp [Ne.symm hc, hw]
-  have hL : ' ' ∉ c!"LOCUS" := by decide
   have hbp : ' ' ∉ c!"bp" := by decide
-  have hlast : contains date (' ' :: c :: w) = false :=
-    contains_false_of_class (· == ' ') ⟨' ', by simp, by simp⟩ (by intro x hx; simp; rintro rfl; exact hdate hx)
-  simp only [L]
-  rw [contains_gap_sp w _ _ c p0 hc hL, contains_gap_sp w _ _ c p1 hc hname, contains_gap_sp w _ _ c 0 hc hlen,
-    contains_gap_sp w _ _ c p2 hc hbp, contains_gap_sp w _ _ c p3 hc hmol, contains_gap_sp w _ _ c p4 hc htopo,
-    contains_gap_sp w _ _ c p5 hc hdiv, hlast]
-  simp only [spaces_succ_append, isPrefixOf_append_sep ' ' (c :: w) _ _ hv, Bool.or_false, Bool.or_assoc]
+  have hnil : ' ' ∉ ([] : Str) := by simp
+  have e : S6 len mol topo div date = [] ++ S6 len mol topo div date := rfl
+  rw [e]
+  simp only [S6]
+  rw [contains_gap_sp w _ _ c 0 hc hnil, contains_gap_sp w _ _ c 0 hc hlen, contains_gap_sp w _ _ c 0 hc hbp,
+    contains_gap_sp w _ _ c 0 hc hmol, contains_gap_sp w _ _ c 0 hc htopo, contains_gap_sp w _ _ c 0 hc hdiv,
+    contains_gap_sp w _ _ c 0 hc hdate]
+  simp only [spaces_succ_append, isPrefixOf_append_sep ' ' (c :: w) _ _ hv, Bool.or_false, Bool.or_assoc, contains,
+    List.isPrefixOf]
 
-/-- blank + blank-free `u` + blank: `u` is one of the tokens between the first and the last -/
-theorem contains_L_sp_tok (c : Char) (u : Str) (hc : c ≠ ' ') (hu : ' ' ∉ u) :
-    contains (L p0 p1 p2 p3 p4 p5 name len mol topo div date) (' ' :: c :: (u ++ [' '])) =
-      ((c :: u) == name || ((c :: u) == len || ((c :: u) == c!"bp" || ((c :: u) == mol
-        || ((c :: u) == topo || (c :: u) == div))))) := by
+/-- blank + blank-free `u` + blank: `u` is one of the tokens -/
+theorem contains_S6_tok (c : Char) (u : Str) (hc : c ≠ ' ') (hu : ' ' ∉ u) :
+    contains (S6 len mol topo div date) (' ' :: c :: (u ++ [' '])) =
+      ((c :: u) == len || ((c :: u) == c!"bp" || ((c :: u) == mol
+        || ((c :: u) == topo || ((c :: u) == div || (c :: u) == date))))) := by
   have hv : ' ' ∉ c :: u := by simp [Ne.symm hc, hu]
-  have hL : ' ' ∉ c!"LOCUS" := by decide
   have hbp : ' ' ∉ c!"bp" := by decide
-  have hlast : contains date (' ' :: c :: (u ++ [' '])) = false :=
-    contains_false_of_class (· == ' ') ⟨' ', by simp, by simp⟩ (by intro x hx; simp; rintro rfl; exact hdate hx)
-  have hlast2 : (c :: (u ++ [' '])).isPrefixOf date = false :=
-    isPrefixOf_false_of_mem ' ' _ _ (by simp) hdate
-  simp only [L]
-  rw [contains_gap_sp _ _ _ c p0 hc hL, contains_gap_sp _ _ _ c p1 hc hname, contains_gap_sp _ _ _ c 0 hc hlen,
-    contains_gap_sp _ _ _ c p2 hc hbp, contains_gap_sp _ _ _ c p3 hc hmol, contains_gap_sp _ _ _ c p4 hc htopo,
-    contains_gap_sp _ _ _ c p5 hc hdiv, hlast, hlast2]
+  have hnil : ' ' ∉ ([] : Str) := by simp
+  have e : S6 len mol topo div date = [] ++ S6 len mol topo div date := rfl
+  rw [e]
+  simp only [S6]
+  rw [contains_gap_sp _ _ _ c 0 hc hnil, contains_gap_sp _ _ _ c 0 hc hlen, contains_gap_sp _ _ _ c 0 hc hbp,
+    contains_gap_sp _ _ _ c 0 hc hmol, contains_gap_sp _ _ _ c 0 hc htopo, contains_gap_sp _ _ _ c 0 hc hdiv,
+    contains_gap_sp _ _ _ c 0 hc hdate]
   have key : ∀ (t rest : Str), ' ' ∉ t → (c :: (u ++ [' '])).isPrefixOf (t ++ ' ' :: rest) = ((c :: u) == t) :=
     fun t rest ht => isPrefixOf_token (c :: u) t rest hv ht
-  simp only [spaces_succ_append, key _ _ hname, key _ _ hlen, key _ _ hbp, key _ _ hmol, key _ _ htopo, key _ _ hdiv,
-    Bool.or_false, Bool.or_assoc]
+  simp only [spaces_succ_append, key _ _ hlen, key _ _ hbp, key _ _ hmol, key _ _ htopo, key _ _ hdiv, key _ _ hdate,
+    Bool.or_false, Bool.or_assoc, contains, List.isPrefixOf]
 
 end
 
@@ -218,53 +246,35 @@ theorem firstContained_of_eq (s x : Str) (l : List Str) (h : ∀ y ∈ l, contai
 /-- the blank-free literals searched in the LOCUS line -/
 def lits : List Str := [c!"DNA", c!"mRNA", c!"tRNA", c!"rRNA"] ++ divisionCodes
 
+/-- the lower-case first words of the molecule types that contain a blank -/
+def lowWords : List Str := [c!"genomic", c!"other", c!"transcribed", c!"viral", c!"unassigned"]
+
 theorem lits_props : ∀ lit ∈ lits, ' ' ∉ lit ∧ '-' ∉ lit ∧ lit ≠ [] ∧ (∃ c ∈ lit, isUpper c = true) := by decide
 
-theorem isUpper_false_of_nameChar {c : Char} (h : isNameChar c = true) : isUpper c = false := by
-  simp only [isNameChar, isLower, isDigit, isUpper, Bool.or_eq_true, Bool.and_eq_true, decide_eq_true_eq, beq_iff_eq,
-    Bool.and_eq_false_iff, decide_eq_false_iff_not] at *
-  rcases h with (h | h) | h
-  · omega
-  · omega
-  · subst h; decide
+theorem lowWords_props : ∀ w ∈ lowWords, ' ' ∉ w ∧ w ≠ [] ∧ (∃ c ∈ w, isLower c = true) := by decide
 
 theorem isUpper_false_of_digit {c : Char} (h : isDigit c = true) : isUpper c = false := by
   simp only [isDigit, isUpper, Bool.and_eq_true, decide_eq_true_eq, Bool.and_eq_false_iff, decide_eq_false_iff_not] at *
   omega
 
+theorem isLower_false_of_digit {c : Char} (h : isDigit c = true) : isLower c = false := by
+  simp only [isDigit, isLower, Bool.and_eq_true, decide_eq_true_eq, Bool.and_eq_false_iff, decide_eq_false_iff_not] at *
+  omega
+
 theorem ne_of_isDigit {c d : Char} (h : isDigit c = true) (hd : isDigit d = false) : c ≠ d := by
   rintro rfl; simp [h] at hd
-
-structure NameFacts (name : Str) : Prop where
-  ne : name ≠ []
-  nosp : ' ' ∉ name
-  nodash : '-' ∉ name
-  noupper : ∀ c ∈ name, isUpper c = false
-  head_lower : ∀ c, name.head? = some c → isLower c = true
-
-theorem nameFacts {name : Str} (h : isLocusName name = true) : NameFacts name := by
-  cases name with
-  | nil => simp [isLocusName] at h
-  | cons c cs =>
-    simp only [isLocusName, Bool.and_eq_true, List.all_eq_true] at h
-    obtain ⟨hc, hall⟩ := h
-    have hsp : isNameChar ' ' = false := by decide
-    have hdash : isNameChar '-' = false := by decide
-    exact { ne := by simp
-            nosp := fun hm => by have := hall _ hm; simp [hsp] at this
-            nodash := fun hm => by have := hall _ hm; simp [hdash] at this
-            noupper := fun x hx => isUpper_false_of_nameChar (hall x hx)
-            head_lower := fun x hx => by simp at hx; subst hx; exact hc }
 
 structure DigitFacts (ds : Str) : Prop where
   nosp : ' ' ∉ ds
   nodash : '-' ∉ ds
   noupper : ∀ c ∈ ds, isUpper c = false
+  nolower : ∀ c ∈ ds, isLower c = false
 
 theorem digitFacts {ds : Str} (h : ∀ c ∈ ds, isDigit c = true) : DigitFacts ds :=
   { nosp := fun hm => by have := h _ hm; revert this; decide
     nodash := fun hm => by have := h _ hm; revert this; decide
-    noupper := fun c hc => isUpper_false_of_digit (h c hc) }
+    noupper := fun c hc => isUpper_false_of_digit (h c hc)
+    nolower := fun c hc => isLower_false_of_digit (h c hc) }
 
 /-- a well-formed date, taken apart -/
 theorem date_parts {d : Str} (h : isDateText d = true) :
@@ -278,24 +288,30 @@ theorem date_parts {d : Str} (h : isDateText d = true) :
     exact ⟨d1, d2, [m1, m2, m3], y1, y2, y3, y4, rfl, by simpa using am, a1, a2, b1, b2, b3, b4⟩
   · exact absurd h (by simp)
 
-theorem month_facts : ∀ m ∈ monthNames, ' ' ∉ m ∧ (∀ lit ∈ lits, contains m lit = false) := by decide
+theorem month_facts : ∀ m ∈ monthNames, ' ' ∉ m ∧ (∀ lit ∈ lits, contains m lit = false)
+    ∧ (∀ c ∈ m, isLower c = false) := by decide
 
-theorem date_nosp {d : Str} (h : isDateText d = true) : ' ' ∉ d := by
+/-- every character of a date is a digit, '-' or an upper-case letter -/
+theorem date_chars {d : Str} (h : isDateText d = true) : ∀ c ∈ d, isLower c = false ∧ c ≠ ' ' := by
   obtain ⟨d1, d2, mon, y1, y2, y3, y4, rfl, hm, a1, a2, b1, b2, b3, b4⟩ := date_parts h
   have hsp : isDigit ' ' = false := by decide
-  have hmon := (month_facts mon hm).1
-  intro hmem
+  obtain ⟨hmon, _, hmlow⟩ := month_facts mon hm
+  have dg : ∀ c, isDigit c = true → isLower c = false ∧ c ≠ ' ' :=
+    fun c hc => ⟨isLower_false_of_digit hc, ne_of_isDigit hc hsp⟩
+  intro c hmem
   simp only [List.mem_append, List.mem_cons, List.not_mem_nil, or_false] at hmem
   rcases hmem with (h | h) | h | h | h | h | h | h | h
-  · exact ne_of_isDigit a1 hsp h.symm
-  · exact ne_of_isDigit a2 hsp h.symm
-  · exact absurd h (by decide)
-  · exact hmon h
-  · exact absurd h (by decide)
-  · exact ne_of_isDigit b1 hsp h.symm
-  · exact ne_of_isDigit b2 hsp h.symm
-  · exact ne_of_isDigit b3 hsp h.symm
-  · exact ne_of_isDigit b4 hsp h.symm
+  · subst h; exact dg _ a1
+  · subst h; exact dg _ a2
+  · subst h; decide
+  · exact ⟨hmlow c h, by rintro rfl; exact hmon h⟩
+  · subst h; decide
+  · subst h; exact dg _ b1
+  · subst h; exact dg _ b2
+  · subst h; exact dg _ b3
+  · subst h; exact dg _ b4
+
+theorem date_nosp {d : Str} (h : isDateText d = true) : ' ' ∉ d := fun hm => (date_chars h _ hm).2 rfl
 
 theorem date_head_digit {d : Str} (h : isDateText d = true) : ∃ c r, d = c :: r ∧ isDigit c = true := by
   obtain ⟨d1, d2, mon, y1, y2, y3, y4, rfl, _, a1, _⟩ := date_parts h
@@ -308,43 +324,39 @@ theorem date_last {d : Str} (h : isDateText d = true) : ∃ c, d.getLast? = some
 theorem date_contains_lit {d : Str} (h : isDateText d = true) (lit : Str) (hl : lit ∈ lits) : contains d lit = false := by
   obtain ⟨d1, d2, mon, y1, y2, y3, y4, rfl, hm, a1, a2, b1, b2, b3, b4⟩ := date_parts h
   obtain ⟨_, hd, hne, hup⟩ := lits_props lit hl
-  rw [contains_append_sep '-' lit _ _ hd hne, contains_append_sep '-' lit _ _ hd hne, (month_facts mon hm).2 lit hl,
+  rw [contains_append_sep '-' lit _ _ hd hne, contains_append_sep '-' lit _ _ hd hne, (month_facts mon hm).2.1 lit hl,
     contains_false_of_class isUpper hup, contains_false_of_class isUpper hup]
   · rfl
   · intro c hc; simp at hc; rcases hc with rfl | rfl | rfl | rfl <;> exact isUpper_false_of_digit (by assumption)
   · intro c hc; simp at hc; rcases hc with rfl | rfl <;> exact isUpper_false_of_digit (by assumption)
 
-theorem fixed_contains_lit : ∀ lit ∈ lits, contains c!"LOCUS" lit = false ∧ contains c!"bp" lit = false
-    ∧ contains c!"circular" lit = false ∧ contains c!"linear" lit = false := by decide
+theorem fixed_contains : (∀ lit ∈ lits, contains c!"bp" lit = false) ∧ (∀ w ∈ lowWords, contains c!"bp" w = false) := by
+  decide
 
-theorem mol_facts (m : MolType) : ' ' ∉ m.text ∧ m.text ∈ lits ∧ (∀ lit ∈ lits, contains m.text lit = (m.text == lit))
-    ∧ (c!"RNA").isPrefixOf m.text = false ∧ (c!"circular" == m.text) = false ∧ (c!"linear" == m.text) = false := by
+theorem mol_facts (m : MolType) : ' ' ∉ m.text ∧ m.text ≠ [] ∧ m.text ∈ lits ∧ (∀ lit ∈ lits, contains m.text lit = (m.text == lit))
+    ∧ (∀ w ∈ lowWords, contains m.text w = false)
+    ∧ (c!"circular" == m.text) = false ∧ (c!"linear" == m.text) = false := by
   cases m <;> decide
 
-theorem topo_facts (t : Topology) : ' ' ∉ t.text ∧ (∀ lit ∈ lits, contains t.text lit = false)
-    ∧ (c!"RNA").isPrefixOf t.text = false := by
+theorem topo_facts (t : Topology) : ' ' ∉ t.text ∧ t.text ≠ [] ∧ (∀ lit ∈ lits, contains t.text lit = false)
+    ∧ (∀ w ∈ lowWords, contains t.text w = false) := by
   cases t <;> decide
 
-theorem div_facts : ∀ d ∈ divisionCodes, ' ' ∉ d ∧ d ∈ lits ∧ (∀ lit ∈ lits, contains d lit = (d == lit))
-    ∧ (c!"RNA").isPrefixOf d = false ∧ (c!"circular" == d) = false ∧ (c!"linear" == d) = false := by decide
+theorem div_facts : ∀ d ∈ divisionCodes, ' ' ∉ d ∧ d ≠ [] ∧ d ∈ lits ∧ (∀ lit ∈ lits, contains d lit = (d == lit))
+    ∧ (∀ w ∈ lowWords, contains d w = false)
+    ∧ (c!"circular" == d) = false ∧ (c!"linear" == d) = false := by decide
 
 theorem divisions_same : genbankDivisions = divisionCodes := rfl
-
-theorem spaces_succ_append' (k : Nat) (x : Str) : spaces (k + 1) ++ x = spaces k ++ ' ' :: x := by
-  induction k with
-  | zero => rfl
-  | succ j ih => rw [spaces_succ_append, ih, spaces_succ_append]
 
 theorem isSpace_false_of_digit {c : Char} (h : isDigit c = true) : isSpace c = false := by
   simp only [isDigit, Bool.and_eq_true, decide_eq_true_eq] at h
   simp only [isSpace, Bool.or_eq_false_iff, beq_eq_false_iff_ne]
   refine ⟨⟨⟨⟨⟨?_, ?_⟩, ?_⟩, ?_⟩, ?_⟩, ?_⟩ <;> (rintro rfl; revert h; decide)
 
-theorem ne_of_digits_letter {ds lit : Str} (h : ∀ c ∈ ds, isDigit c = true) (hl : ∃ c ∈ lit, isDigit c = false) :
-    (lit == ds) = false := by
-  obtain ⟨c, hc, hd⟩ := hl
+theorem ne_of_head_digit {lit ds : Str} {c : Char} {r : Str} (hd : ds = c :: r) (hc : isDigit c = true)
+    (hl : ∀ x, lit.head? = some x → isDigit x = false) : (lit == ds) = false := by
   rw [beq_eq_false_iff_ne]; rintro rfl
-  simp [h c hc] at hd
+  have := hl c (by rw [hd]; rfl); simp [hc] at this
 
 theorem getLast?_append_ne (a b : Str) (h : b ≠ []) : (a ++ b).getLast? = b.getLast? := by
   rw [List.getLast?_append]
@@ -361,57 +373,77 @@ theorem L_eq_pre (p0 p1 p2 p3 p4 p5 : Nat) (name len mol topo div date : Str) :
     L p0 p1 p2 p3 p4 p5 name len mol topo div date = Lpre p0 p1 p2 p3 p4 p5 name len mol topo div ++ date := by
   simp only [L, Lpre, List.append_assoc]
 
-/-- `parseLocus` recovers every field of the LOCUS line, for every length, molecule type, topology,
-division, date and every choice of the six gaps — unless the locus is called `linear`/`circular` and
-has the other topology -/
-theorem parseLocus_locusLine (l : RLocus) (n : Nat) (ℓ : RecLayout) (h : wfLocus l = true)
-    (ht : nameTopoTrapL l = false) : parseLocus (locusLine l n ℓ) = .ok (toLocus l n) := by
+theorem findDate_self_sp (d : Str) (h : isDateText d = true) : findDate (d ++ [' ']) = d := by
+  unfold isDateText at h
+  split at h
+  · rename_i d1 d2 m1 m2 m3 y1 y2 y3 y4
+    simp only [Bool.and_eq_true] at h
+    obtain ⟨⟨⟨⟨⟨⟨a1, a2⟩, am⟩, b1⟩, b2⟩, b3⟩, b4⟩ := h
+    have hm : isUpper m1 = true ∧ isUpper m2 = true ∧ isUpper m3 = true := by
+      have : ∀ m ∈ monthNames, m.all isUpper = true := by decide
+      have := this [m1, m2, m3] (by simpa using am)
+      simpa using this
+    simp [findDate, matchDate, a1, a2, b1, b2, b3, b4, hm.1, hm.2.1, hm.2.2]
+  · exact absurd h (by simp)
+
+/-- the longest molecule type that occurs, when exactly the types in `present` occur -/
+theorem longestContained_congr (s : Str) (cur : Str) (l : List Str) (f : Str → Bool)
+    (h : ∀ x ∈ l, contains s x = f x) :
+    longestContained s cur l = l.foldl (fun cur x => if (if f x then x else []).length > cur.length then (if f x then x else []) else cur) cur := by
+  induction l generalizing cur with
+  | nil => rfl
+  | cons x xs ih =>
+    simp only [longestContained, List.foldl_cons, h x (by simp)]
+    exact ih _ (fun y hy => h y (by simp [hy]))
+
+/-- `parseLocus` recovers every field of the LOCUS line, for every locus name (a blank-free token), every
+length, molecule type, topology, division, date and every choice of the six gaps -/
+theorem parseLocus_locusLine (l : RLocus) (n : Nat) (ℓ : RecLayout) (h : wfLocus l = true) :
+    parseLocus (locusLine l n ℓ) = .ok (toLocus l n) := by
   simp only [wfLocus, Bool.and_eq_true, decide_eq_true_eq] at h
   obtain ⟨⟨hname, hdivlt⟩, hdate⟩ := h
   rw [locusLine_eq]
   generalize ℓ.pads.getD 0 0 = p0; generalize ℓ.pads.getD 1 0 = p1; generalize ℓ.pads.getD 2 0 = p2
   generalize ℓ.pads.getD 3 0 = p3; generalize ℓ.pads.getD 4 0 = p4; generalize ℓ.pads.getD 5 0 = p5
-  have hN := nameFacts hname
+  have hname0 : l.name ≠ [] := by
+    simp only [isLocusName, Bool.and_eq_true, bne_iff_ne, ne_eq] at hname; exact hname.1
+  have hname_sp : ' ' ∉ l.name := by
+    simp only [isLocusName, Bool.and_eq_true, List.all_eq_true, bne_iff_ne, ne_eq] at hname
+    intro hm; exact (hname.2 _ hm).2 rfl
   have hlenD := ofNat_isDigit n
   have hD := digitFacts hlenD
   have hlen0 := ofNat_ne_nil n
   have hdivmem : divisionCodes.getD l.division [] ∈ divisionCodes := by
     rw [List.getD_eq_getElem?_getD, List.getElem?_eq_getElem hdivlt]; exact List.getElem_mem _
-  obtain ⟨hdiv_sp, hdiv_lit, hdiv_c, hdiv_rna, hdiv_circ, hdiv_lin⟩ := div_facts _ hdivmem
-  obtain ⟨hmol_sp, hmol_lit, hmol_c, hmol_rna, hmol_circ, hmol_lin⟩ := mol_facts l.mol
-  obtain ⟨htopo_sp, htopo_c, htopo_rna⟩ := topo_facts l.topo
+  generalize hdv : divisionCodes.getD l.division [] = dv at *
+  obtain ⟨hdiv_sp, hdiv0, hdiv_lit, hdiv_c, hdiv_low, hdiv_circ, hdiv_lin⟩ := div_facts _ hdivmem
+  obtain ⟨hmol_sp, hmol0, hmol_lit, hmol_c, hmol_low, hmol_circ, hmol_lin⟩ := mol_facts l.mol
+  obtain ⟨htopo_sp, htopo0, htopo_c, htopo_low⟩ := topo_facts l.topo
   have hdate_sp := date_nosp hdate
   obtain ⟨dc, dr, hdeq, hdc⟩ := date_head_digit hdate
   obtain ⟨dl, hdl, hdld⟩ := date_last hdate
-  obtain ⟨nc, nr, hneq⟩ : ∃ c r, l.name = c :: r := by
-    cases hn : l.name with
-    | nil => exact absurd hn hN.ne
-    | cons c r => exact ⟨c, r, rfl⟩
-  have hnc : isLower nc = true := hN.head_lower nc (by rw [hneq]; rfl)
+  have hdate0 : l.date ≠ [] := by rw [hdeq]; simp
   obtain ⟨lc, lr, hleq⟩ : ∃ c r, ofNat n = c :: r := by
     cases hn : ofNat n with
     | nil => exact absurd hn hlen0
     | cons c r => exact ⟨c, r, rfl⟩
   have hlc : isDigit lc = true := hlenD lc (by rw [hleq]; simp)
-  generalize hLx : L p0 p1 p2 p3 p4 p5 l.name (ofNat n) l.mol.text l.topo.text (divisionCodes.getD l.division []) l.date = Lx
+  generalize hLx : L p0 p1 p2 p3 p4 p5 l.name (ofNat n) l.mol.text l.topo.text dv l.date = Lx
   -- (1) the line is its own TrimSpace
   have htrim : trimSpace Lx = Lx := by
     apply trimSpace_id
     · intro c hc; rw [← hLx] at hc; simp [L] at hc; subst hc; decide
     · intro c hc
-      rw [← hLx, L_eq_pre, getLast?_append_ne _ _ (by rw [hdeq]; simp), hdl] at hc
+      rw [← hLx, L_eq_pre, getLast?_append_ne _ _ hdate0, hdl] at hc
       cases hc; exact isSpace_false_of_digit hdld
-  -- (2) the name
-  have hname2 : ((split Lx c!" ").filter (· ≠ []))[1]? = some l.name := by
-    rw [← hLx]; exact second_field _ _ _ _ _ (by decide) hN.nosp (by decide) hN.ne
+  -- (2) the fields
+  have hfields : (split Lx c!" ").filter (· ≠ []) = [c!"LOCUS", l.name, ofNat n, c!"bp", l.mol.text, l.topo.text, dv, l.date] := by
+    rw [← hLx]
+    exact fields_L _ _ _ _ _ _ _ _ _ _ _ _ hname_sp hD.nosp hmol_sp htopo_sp hdiv_sp hdate_sp hname0 hlen0 hmol0 htopo0 hdiv0 hdate0
+  generalize hSx : S6 (ofNat n) l.mol.text l.topo.text dv l.date = Sx
   -- (3) the base-pair pattern
-  have hbp : findBasePair Lx = ' ' :: ofNat n ++ [' ', 'b', 'p', ' '] := by
-    rw [← hLx]; simp only [L]
-    rw [findBasePair_skip_token _ _ (by decide), findBasePair_skip_spaces _ _ (by
-          intro d hd; rw [hneq] at hd; simp at hd; subst hd
-          simp only [isLower, isDigit, Bool.and_eq_true, decide_eq_true_eq, Bool.and_eq_false_iff, decide_eq_false_iff_not] at *; omega),
-      findBasePair_skip_token _ _ hN.nosp, spaces_succ_append',
-      findBasePair_skip_spaces _ _ (by intro d hd; simp at hd; subst hd; decide)]
+  have hbp : findBasePair Sx = ' ' :: ofNat n ++ [' ', 'b', 'p', ' '] := by
+    rw [← hSx]
     exact findBasePair_at (ofNat n) _ 'b' 'p' hlen0 hlenD (by decide) (by decide)
   have hsplit : split (trimSpace (' ' :: ofNat n ++ [' ', 'b', 'p', ' '])) c!" " = [ofNat n, c!"bp"] := by
     have e : ' ' :: ofNat n ++ [' ', 'b', 'p', ' '] = spaces 1 ++ (ofNat n ++ c!" bp") ++ spaces 1 := by
@@ -422,15 +454,21 @@ theorem parseLocus_locusLine (l : RLocus) (n : Nat) (ℓ : RecLayout) (h : wfLoc
     · intro c hc; rw [hleq] at hc; simp at hc; subst hc; exact isSpace_false_of_digit hlc
     · intro c hc; rw [getLast?_append_ne _ _ (by simp)] at hc; simp at hc; subst hc; decide
   -- (4) literal searches
-  have hcl : ∀ lit ∈ lits, contains Lx lit = (l.mol.text == lit || divisionCodes.getD l.division [] == lit) := by
+  have hcl : ∀ lit ∈ lits, contains Sx lit = (l.mol.text == lit || dv == lit) := by
     intro lit hl
     obtain ⟨hs, _, hne, hup⟩ := lits_props lit hl
-    obtain ⟨f1, f2, _, _⟩ := fixed_contains_lit lit hl
-    rw [← hLx, contains_L _ _ _ _ _ _ _ _ _ _ _ _ lit hs hne, f1, f2, contains_false_of_class isUpper hup hN.noupper,
+    rw [← hSx, contains_S6 _ _ _ _ _ lit hs hne, fixed_contains.1 lit hl,
       contains_false_of_class isUpper hup hD.noupper, hmol_c lit hl, htopo_c lit hl, hdiv_c lit hl,
       date_contains_lit hdate lit hl]
     simp
-  have hdivision : firstContained Lx genbankDivisions = divisionCodes.getD l.division [] := by
+  have hlow : ∀ w ∈ lowWords, contains Sx w = false := by
+    intro w hw
+    obtain ⟨hs, hne, hlo⟩ := lowWords_props w hw
+    rw [← hSx, contains_S6 _ _ _ _ _ w hs hne, fixed_contains.2 w hw, contains_false_of_class isLower hlo hD.nolower,
+      hmol_low w hw, htopo_low w hw, hdiv_low w hw,
+      contains_false_of_class isLower hlo (fun c hc => (date_chars hdate c hc).1)]
+    rfl
+  have hdivision : firstContained Sx genbankDivisions = dv := by
     rw [divisions_same]
     apply firstContained_of_eq _ _ _ _ hdivmem
     intro y hy
@@ -440,77 +478,76 @@ theorem parseLocus_locusLine (l : RLocus) (n : Nat) (ℓ : RecLayout) (h : wfLoc
       have : ∀ m : MolType, ∀ y ∈ divisionCodes, (m.text == y) = false := by intro m; cases m <;> decide
       exact this _ _ hy
     simp [this]
-  have hRNA : contains Lx c!" RNA" = false := by
-    rw [← hLx, contains_L_sp _ _ _ _ _ _ _ _ _ _ _ _ hN.nosp hD.nosp hmol_sp htopo_sp hdiv_sp hdate_sp 'R' c!"NA" (by decide) (by decide),
-      hmol_rna, htopo_rna, hdiv_rna, hneq, hleq, hdeq]
-    have e1 : nc ≠ 'R' := by rintro rfl; revert hnc; decide
-    have e2 : lc ≠ 'R' := by rintro rfl; revert hlc; decide
-    have e3 : dc ≠ 'R' := by rintro rfl; revert hdc; decide
-    simp [List.isPrefixOf, Ne.symm e1, Ne.symm e2, Ne.symm e3]
-  have hmolType : firstContained Lx genBankMoleculeTypes = l.mol.text := by
-    have hDNA := hcl c!"DNA" (by decide)
-    have hm := hcl c!"mRNA" (by decide)
-    have htr := hcl c!"tRNA" (by decide)
-    have hr := hcl c!"rRNA" (by decide)
-    have hdv : ∀ lit ∈ [c!"DNA", c!"mRNA", c!"tRNA", c!"rRNA"], (divisionCodes.getD l.division [] == lit) = false := by
+  have hmolType : longestContained Sx [] genBankMoleculeTypes = l.mol.text := by
+    have hdvf : ∀ lit ∈ [c!"DNA", c!"mRNA", c!"tRNA", c!"rRNA"], (dv == lit) = false := by
       have : ∀ d ∈ divisionCodes, ∀ lit ∈ [c!"DNA", c!"mRNA", c!"tRNA", c!"rRNA"], (d == lit) = false := by decide
       exact this _ hdivmem
-    rw [hdv _ (by decide)] at hDNA hm htr hr
-    have hgR : contains Lx c!"genomic RNA" = false :=
-      contains_false_of_part (part := c!" RNA") ⟨c!"genomic", [], rfl⟩ hRNA
-    cases hmol : l.mol <;> rw [hmol] at hDNA hm htr hr <;> simp only [MolType.text] at hDNA hm htr hr ⊢
-    · simp only [genBankMoleculeTypes, firstContained, hDNA]; rfl
-    all_goals
-      have hgD : contains Lx c!"genomic DNA" = false :=
-        contains_false_of_part (part := c!"DNA") ⟨c!"genomic ", [], rfl⟩ (by rw [hDNA]; rfl)
-      simp only [genBankMoleculeTypes, firstContained, hDNA, hm, htr, hr, hgD, hgR]
-      rfl
-  have hne_len : ∀ lit : Str, (∃ c ∈ lit, isDigit c = false) → (lit == ofNat n) = false :=
-    fun lit hl => ne_of_digits_letter hlenD hl
-  have hcirc : contains Lx c!" circular " = (l.topo == Topology.circular) := by
-    rw [← hLx]
-    have := contains_L_sp_tok p0 p1 p2 p3 p4 p5 _ _ _ _ _ _ hN.nosp hD.nosp hmol_sp htopo_sp hdiv_sp hdate_sp 'c' c!"ircular" (by decide) (by decide)
+    have part : ∀ (w lit : Str), w ∈ lowWords → w <:+: lit → contains Sx lit = false :=
+      fun w lit hw hp => contains_false_of_part hp (hlow w hw)
+    rw [longestContained_congr Sx [] genBankMoleculeTypes (fun x => x == l.mol.text)]
+    · cases l.mol <;> decide
+    · intro x hx
+      simp only [genBankMoleculeTypes, List.mem_cons, List.not_mem_nil, or_false] at hx
+      have h4 : ∀ lit ∈ [c!"DNA", c!"mRNA", c!"tRNA", c!"rRNA"], contains Sx lit = (lit == l.mol.text) := by
+        intro lit hl
+        rw [hcl lit (by simp only [lits, List.mem_append]; exact Or.inl hl), hdvf lit hl, Bool.or_false]
+        exact Bool.beq_comm
+      have hm4 : ∀ m : MolType, ∀ lit ∈ [c!"genomic DNA", c!"genomic RNA", c!"other RNA", c!"other DNA",
+          c!"transcribed RNA", c!"viral cRNA", c!"unassigned DNA", c!"unassigned RNA"], (lit == m.text) = false := by
+        intro m; cases m <;> decide
+      rcases hx with rfl | rfl | rfl | rfl | rfl | rfl | rfl | rfl | rfl | rfl | rfl | rfl
+      · exact h4 _ (by decide)
+      · rw [part c!"genomic" c!"genomic DNA" (by decide) ⟨[], c!" DNA", rfl⟩, hm4 _ _ (by decide)]
+      · rw [part c!"genomic" c!"genomic RNA" (by decide) ⟨[], c!" RNA", rfl⟩, hm4 _ _ (by decide)]
+      · exact h4 _ (by decide)
+      · exact h4 _ (by decide)
+      · exact h4 _ (by decide)
+      · rw [part c!"other" c!"other RNA" (by decide) ⟨[], c!" RNA", rfl⟩, hm4 _ _ (by decide)]
+      · rw [part c!"other" c!"other DNA" (by decide) ⟨[], c!" DNA", rfl⟩, hm4 _ _ (by decide)]
+      · rw [part c!"transcribed" c!"transcribed RNA" (by decide) ⟨[], c!" RNA", rfl⟩, hm4 _ _ (by decide)]
+      · rw [part c!"viral" c!"viral cRNA" (by decide) ⟨[], c!" cRNA", rfl⟩, hm4 _ _ (by decide)]
+      · rw [part c!"unassigned" c!"unassigned DNA" (by decide) ⟨[], c!" DNA", rfl⟩, hm4 _ _ (by decide)]
+      · rw [part c!"unassigned" c!"unassigned RNA" (by decide) ⟨[], c!" RNA", rfl⟩, hm4 _ _ (by decide)]
+  have hne_len : ∀ lit : Str, (∀ x, lit.head? = some x → isDigit x = false) → (lit == ofNat n) = false :=
+    fun lit hl => ne_of_head_digit hleq hlc hl
+  have hne_date : ∀ lit : Str, (∀ x, lit.head? = some x → isDigit x = false) → (lit == l.date) = false :=
+    fun lit hl => ne_of_head_digit hdeq hdc hl
+  have hcirc : contains Sx c!" circular " = (l.topo == Topology.circular) := by
+    rw [← hSx]
+    have := contains_S6_tok _ _ _ _ _ hD.nosp hmol_sp htopo_sp hdiv_sp hdate_sp 'c' c!"ircular" (by decide) (by decide)
     rw [show (' ' :: 'c' :: (c!"ircular" ++ [' '])) = c!" circular " from rfl] at this
-    rw [this, hne_len _ ⟨'c', by simp, by decide⟩, hmol_circ, hdiv_circ]
-    simp only [nameTopoTrapL, Bool.or_eq_false_iff, Bool.and_eq_false_iff] at ht
-    cases htp : l.topo <;> simp only [htp, Topology.text] at ht ⊢
-    · simp
-    · have : (c!"circular" == l.name) = false := by
-        rcases ht.2 with h | h
-        · rw [beq_eq_false_iff_ne] at h ⊢; exact fun e => h e.symm
-        · simp at h
-      simp [this]
-  have hlin : contains Lx c!" linear " = (l.topo == Topology.linear) := by
-    rw [← hLx]
-    have := contains_L_sp_tok p0 p1 p2 p3 p4 p5 _ _ _ _ _ _ hN.nosp hD.nosp hmol_sp htopo_sp hdiv_sp hdate_sp 'l' c!"inear" (by decide) (by decide)
+    rw [this, hne_len _ (by intro x hx; cases hx; decide), hne_date _ (by intro x hx; cases hx; decide), hmol_circ, hdiv_circ]
+    cases l.topo <;> decide
+  have hlin : contains Sx c!" linear " = (l.topo == Topology.linear) := by
+    rw [← hSx]
+    have := contains_S6_tok _ _ _ _ _ hD.nosp hmol_sp htopo_sp hdiv_sp hdate_sp 'l' c!"inear" (by decide) (by decide)
     rw [show (' ' :: 'l' :: (c!"inear" ++ [' '])) = c!" linear " from rfl] at this
-    rw [this, hne_len _ ⟨'l', by simp, by decide⟩, hmol_lin, hdiv_lin]
-    simp only [nameTopoTrapL, Bool.or_eq_false_iff, Bool.and_eq_false_iff] at ht
-    cases htp : l.topo <;> simp only [htp, Topology.text] at ht ⊢
-    · have : (c!"linear" == l.name) = false := by
-        rcases ht.1 with h | h
-        · rw [beq_eq_false_iff_ne] at h ⊢; exact fun e => h e.symm
-        · simp at h
-      simp [this]
-    · simp
+    rw [this, hne_len _ (by intro x hx; cases hx; decide), hne_date _ (by intro x hx; cases hx; decide), hmol_lin, hdiv_lin]
+    cases l.topo <;> decide
   -- (5) the date
-  have hfd : findDate Lx = l.date := by
-    have : ∃ pre, Lx = pre ++ l.date ∧ '-' ∉ pre := by
-      rw [← hLx]
-      refine ⟨_, L_eq_pre _ _ _ _ _ _ _ _ _ _ _ _, ?_⟩
+  have hfd : findDate Sx = l.date := by
+    have : ∃ pre, Sx = pre ++ (l.date ++ [' ']) ∧ '-' ∉ pre := by
+      rw [← hSx]
+      refine ⟨spaces (0 + 1) ++ (ofNat n ++ (spaces (0 + 1) ++ (c!"bp" ++ (spaces (0 + 1) ++ (l.mol.text ++ (spaces (0 + 1)
+        ++ (l.topo.text ++ (spaces (0 + 1) ++ (dv ++ spaces (0 + 1)))))))))), by simp only [S6, List.append_assoc, List.append_nil]; rfl, ?_⟩
       have hmd : ∀ m : MolType, '-' ∉ m.text := by intro m; cases m <;> decide
       have htd : ∀ t : Topology, '-' ∉ t.text := by intro t; cases t <;> decide
       have hdd : ∀ d ∈ divisionCodes, '-' ∉ d := by decide
-      simp only [Lpre, List.mem_append, not_or, spaces, List.mem_replicate]
-      simp [hN.nodash, hD.nodash, hmd, htd, hdd _ hdivmem, -List.getD_eq_getElem?_getD]
+      simp only [List.mem_append, not_or, spaces, List.mem_replicate]
+      simp [hD.nodash, hmd, htd, hdd _ hdivmem]
     obtain ⟨pre, hpre, hnd⟩ := this
     obtain ⟨d1, d2, mon, y1, y2, y3, y4, hd, _, a1, a2, _⟩ := date_parts hdate
-    rw [hpre, findDate_skip pre _ hnd, findDate_self _ hdate]
+    rw [hpre, findDate_skip pre _ hnd, findDate_self_sp _ hdate]
     · rw [hd]; simp; rintro rfl; revert a1; decide
     · rw [hd]; simp; rintro rfl; revert a2; decide
   -- assemble
   unfold parseLocus
-  simp only [htrim, hname2, hbp, hsplit, hmolType, hcirc, hlin, hdivision, hfd]
-  simp [toLocus]
+  simp only [htrim, hfields]
+  have hj : c!" " ++ join c!" " (List.drop 2 [c!"LOCUS", l.name, ofNat n, c!"bp", l.mol.text, l.topo.text, dv, l.date]) ++ c!" " = Sx := by
+    rw [← hSx, ← S6_eq]; rfl
+  simp only [List.getElem?_cons_succ, List.getElem?_cons_zero]
+  rw [hj]
+  simp only [hbp, hsplit, hmolType, hcirc, hlin, hdivision, hfd]
+  rw [← hdv]; simp [toLocus]
 
 end PolyVerif.Lemmas.Genbank
